@@ -22,7 +22,8 @@ Objects == {"credentials", "keytab", "session", "cache", "ticket", "apreq", "krb
 Surfaces == {"json", "print", "diagnostics", "gob", "wire", "errortext", "logline"}
 Ops == {"login", "loginBadPassword", "getTicket", "getTicketUnknown", "serviceVerify", "decryptTicket", "krbPrivRoundTrip", "destroy",
         "keyLookupMiss",        \* key look-ups that fail although the keytab holds keys of that principal (other kvno / etype), directly and through the service
-        "embedTicket"}          \* a ticket that was decrypted in place is embedded in other messages (additional tickets, KDC replies, ticket sequences) and encoded
+        "embedTicket",
+        "changePassword"}       \* Client.ChangePasswd against the password-change service, answered by the service or by an attacker (refusal, reflection of the request, forged and damaged replies)          \* a ticket that was decrypted in place is embedded in other messages (additional tickets, KDC replies, ticket sequences) and encoded
 CONSTANTS MaxOps
 VARIABLES holds, trail, out
 vars == <<holds, trail, out>>
@@ -40,6 +41,7 @@ Effect(op, h) ==
     [] op = "krbPrivRoundTrip" -> Add(h, "krbpriv", {"subkey"})
     [] op = "keyLookupMiss" -> Add(h, "error", {})                          \* the error names what was asked for, never what the keytab holds
     [] op = "embedTicket" -> Add(h, "ticket", {"svckey"})
+    [] op = "changePassword" -> Add(Add(h, "credentials", {"password"}), "error", {})   \* the new password is a secret from the moment it is passed in
     [] op = "destroy" -> [h EXCEPT !["session"] = {}, !["cache"] = {}, !["credentials"] = {}]
 Do(op) == /\ Len(trail) < MaxOps /\ holds' = Effect(op, holds) /\ trail' = Append(trail, op) /\ UNCHANGED out
 \* the intended rendering: every surface drops every label (keys are json:"-", gob stores booleans, the wire form of a
